@@ -31,6 +31,7 @@ func runC12(c *Ctx) {
 	c12Err(c)
 	c12HostLen(c)
 	c12TrieKeys(c)
+	c12IndexIsAppendPosition(c)
 	c01Dual(c)
 }
 
